@@ -1,5 +1,6 @@
 import AndaVerif.Model.BTree
 import AndaVerif.Model.BTreeFlush
+import AndaVerif.Model.Prefix
 import AndaVerif.Drv.Util
 /-
 Line-protocol driver of the C10 model (`drv_c10`). One request line in, one response line out.
@@ -18,6 +19,8 @@ L2 (durable side; the writes are the ones the harness recorded from the real flu
   reload           the index is dropped and loaded from the store (fresh index if no metadata)
   legacy | stale B K IDS    store surgery (see `Model/BTreeFlush`)
   dump             the current contents
+String-keyed index (prefix queries; keys are hex of the UTF-8 bytes, `-` = empty string):
+  sins D HEX | srem D HEX | pq N|- all|odd HEX
 WRITE = `P b g PAYLOAD` | `M version maxb ins del qc MANIFEST` | `D b g`;
 PAYLOAD = `k=ids;k=ids…` or `-` (ids `-` = empty posting); MANIFEST = `b=g,b=g…` or `-`.
 -/
@@ -149,9 +152,29 @@ def showLoad : Option OMap → String
 
 def bit (b : Bool) : String := if b then "1" else "0"
 
+def hexVal (c : Char) : Option Nat :=
+  if '0' ≤ c ∧ c ≤ '9' then some (c.toNat - '0'.toNat)
+  else if 'a' ≤ c ∧ c ≤ 'f' then some (c.toNat - 'a'.toNat + 10)
+  else none
+
+def hexBytes : List Char → Option (List Nat)
+  | [] => some []
+  | a :: b :: r => do
+    let x ← hexVal a
+    let y ← hexVal b
+    pure ((x * 16 + y) :: (← hexBytes r))
+  | _ => none
+
+def parseHex (s : String) : Option (List Nat) := if s = "-" then some [] else hexBytes s.toList
+
+def hexDigit (n : Nat) : Char := if n < 10 then Char.ofNat (n + '0'.toNat) else Char.ofNat (n - 10 + 'a'.toNat)
+def showHex (bs : List Nat) : String :=
+  if bs.isEmpty then "-" else String.ofList (bs.flatMap (fun b => [hexDigit (b / 16), hexDigit (b % 16)]))
+
 structure DState where
   bt : State
   dur : BTreeFlush.Durable
+  smap : Prefix.SMap := []
 
 open AndaVerif.BTreeFlush in
 def reloadState (s : DState) : DState :=
@@ -175,7 +198,7 @@ def stepFlush (s : DState) (k : Option Nat) (ws : List Write) : DState × String
 
 def stepLine (s : DState) (line : String) : DState × String :=
   match words line with
-  | ["new", u] => ({ bt := init (u = "1"), dur := { objs := [], md := none } }, "ok")
+  | ["new", u] => ({ bt := init (u = "1"), dur := { objs := [], md := none }, smap := [] }, "ok")
   | "flw" :: k :: ws =>
     (match optNat? k, parseWrites (ws.length + 1) ws with
      | some k, some ws => stepFlush s k ws
@@ -196,6 +219,25 @@ def stepLine (s : DState) (line : String) : DState × String :=
      | some b, some k, some ids => ({ s with dur := BTreeFlush.injectStale s.dur b k ids }, "ok")
      | _, _, _ => (s, "err:parse"))
   | ["dump"] => (s, showMap s.bt.map)
+  | ["sins", d, k] =>
+    (match d.toNat?, parseHex k with
+     | some d, some k =>
+       let had := match Prefix.sLookup s.smap k with | some p => p.contains d | none => false
+       ({ s with smap := Prefix.sIns k d s.smap }, if had then "ok:0" else "ok:1")
+     | _, _ => (s, "err:parse"))
+  | ["srem", d, k] =>
+    (match d.toNat?, parseHex k with
+     | some d, some k =>
+       let had := match Prefix.sLookup s.smap k with | some p => p.contains d | none => false
+       ({ s with smap := Prefix.sDel k d s.smap }, if had then "1" else "0")
+     | _, _ => (s, "err:parse"))
+  | ["pq", n, mode, pre] =>
+    (match optNat? n, parseHex pre with
+     | some stop, some pre =>
+       let odd := mode = "odd"
+       let res := Prefix.prefixQuery s.smap pre (Prefix.pcbStop stop (Prefix.pemit odd)) 0
+       (s, if res.isEmpty then "-" else ";".intercalate (res.map (fun (k, p) => s!"{showHex k}={showNats (sortNats p)}")))
+     | _, _ => (s, "err:parse"))
   | ws =>
     match parseOp ws with
     | some op =>
